@@ -1,7 +1,7 @@
 (* C07 - Result codecs round-trip every result and follow the documented layout. *)
 From Coq Require Import ZArith List Bool.
 From V Require Import Base.Duration Base.Str Base.Base64 Model.Csv Model.ResultCodec
-  Proofs.Base64Proofs Proofs.DecimalProofs Proofs.CsvProofs Proofs.ResultCodecProofs Proofs.MimeProofs Model.Flags.
+  Proofs.Base64Proofs Proofs.DecimalProofs Proofs.CsvProofs Proofs.ResultCodecProofs Proofs.MimeProofs Model.Flags Model.Json Proofs.JsonProofs.
 Import ListNotations.
 Open Scope Z_scope.
 
@@ -98,6 +98,22 @@ Proof.
   cbv zeta. split; [|split; [repeat split|]]; try (vm_compute; reflexivity).
   eexists. split; vm_compute; reflexivity.
 Qed.
+
+(* JSON: the string escaping table (control bytes, quotes, backslash, <, >, &, U+2028/9 as \\u
+   escapes) read back by the JSON reader gives every byte string back ... *)
+Theorem json_string_roundtrip : forall s rest, Forall jbyte s ->
+  json_unescape (S (length (json_escape s))) (json_escape s ++ 34 :: rest) [] = Some (s, rest).
+Proof. exact json_string_roundtrip_lemma. Qed.
+Print Assumptions json_string_roundtrip.
+
+(* ... and RFC 3339 timestamps with nanoseconds and any whole-minute zone offset parse back to the
+   same instant and zone, for every local date from 1970 to 2199 (the calendar conversion is
+   swept over all 84000 days, the rest is arithmetic) *)
+Theorem rfc3339_roundtrip : forall ts zone, zone_ok zone ->
+  0 <= ts + zone * 1000000000 < 84000 * 86400 * 1000000000 ->
+  parse_rfc3339 (rfc3339 ts zone) = Some (ts, zone).
+Proof. exact rfc3339_roundtrip_lemma. Qed.
+Print Assumptions rfc3339_roundtrip.
 
 Example csv_roundtrip_nontrivial :
   go_csv_records (concat (map write_record [[ [97; 34; 44; 10; 32]; []; [32; 98] ]; [[]; [34]] ])) =
